@@ -27,12 +27,12 @@ ASSUMPTIONS = [
 MANIFEST = {
     "text": "Coq (Properties_C09_ctx.v, model Context.v = lys_parse_in / lys_parse_load / _lys_set_implemented / lys_implement / "
             "lys_unres_dep_sets_create / lys_compile_depset_all / lys_unres_glob_revert transcribed update by update): the full "
-            "statement failed_op_restores is REFUTED (C09_failed_op_restores_refuted; the library shows the same: 7 known findings). "
-            "Proved: C09_failed_op_restores_partial - from a quiescent state (executable: nothing pending, implemented = compiled "
-            "against the current features) a failing parse / load / implement / compile that keeps the latest-revision bit and the "
-            "feature bits of the existing modules (two executable conditions on the state at the cleanup jump) leaves obs (modules, "
+            "statement failed_op_restores is REFUTED (C09_failed_op_restores_refuted; the library shows the same: 6 known findings, a 7th - the lost latest-revision flag - was fixed by /repo 21681e3 and is now a regression theorem C09_latest_flag_given_back). "
+            "Proved: C09_failed_op_restores_partial - from a reachable quiescent state (executable: nothing pending, implemented = compiled "
+            "against the current features) a failing parse / load / implement / compile that keeps the feature bits of the existing "
+            "modules (executable condition on the state at the cleanup jump) leaves obs (modules, "
             "revisions, implemented, feature values, compiled schema, get_module_latest/implemented answers, hashed fields) unchanged, "
-            "for every failing stage and both compile modes; C09_side_conditions_necessary (each of the three conditions alone is "
+            "for every failing stage and both compile modes (uses the proved invariant that exactly the newest revision of a name carries LYS_MOD_LATEST_REV in every reachable state); C09_side_conditions_necessary (each of the two conditions alone is "
             "violated by a reachable witness that is not restored); unconditional corollaries for a syntax error and for "
             "lys_set_implemented(m, NULL); ly_ctx_compile of a quiescent context cannot fail; parse-stage failures compile nothing "
             "(data trees stay valid) while data_trees_still_valid and later_load_unaffected are refuted by witnesses "
@@ -43,6 +43,6 @@ MANIFEST = {
     "note": "The compiled schema is abstract (which features of the module and of its imports were enabled, plus whether disabled "
             "nodes were already removed). Not modelled: see ASSUMPTIONS. Preservation of quiescence by successful operations is "
             "tested on the model (oracle ctx-model-inv), not proved. About 77% of the failing operations of random scripts satisfy "
-            "the three conditions of the partial theorem; the others are instances of the known findings.",
+            "the conditions of the partial theorem; the others are instances of the known findings.",
     "technique": "Coq proof over hand-written model + differential correspondence (extracted OCaml vs C) + property oracle on the implementation",
 }
